@@ -51,10 +51,10 @@ func c03Attacker(k int) {
 		verif.Assert(honestSess.Decrypter() != nil, "honest-connection-becomes-verified")
 	}
 
-	var accEph []byte     // accessory ephemeral key from the last accepted start
-	var lastA []byte      // what we sent as our ephemeral key in that start
-	var m2enc []byte      // the accessory's encrypted M2 sub-TLV
-	var sessKey [32]byte  // session key, when we can compute it
+	var accEph []byte    // accessory ephemeral key from the last accepted start
+	var lastA []byte     // what we sent as our ephemeral key in that start
+	var m2enc []byte     // the accessory's encrypted M2 sub-TLV
+	var sessKey [32]byte // session key, when we can compute it
 	haveKey := false
 	hist := ""
 	for step := 0; step < k; step++ {
@@ -220,3 +220,72 @@ func c03CheckUnverified(sess hap.Session) {
 
 func Harness_C03_q_attacker_2() { c03Attacker(2) }
 func Harness_C03_t_attacker_3() { c03Attacker(3) }
+
+// The paired controller itself: start(A1), optionally a second start(A2) with another
+// ephemeral key before any finish, then a correctly sealed and signed finish built from the
+// material of either start. If the connection becomes verified, the finish was the one over
+// the ephemeral keys of the LAST start the accessory accepted (a signature over an earlier
+// start's keys is stale for the exchange the accessory says it is running).
+func Harness_C03_q_finish_binds_last_accepted_start() {
+	w := eeNewWorld()
+	ctrlPub, ctrlPriv, _ := ed25519.GenerateKey(nil)
+	w.db.SaveEntity(db.NewEntity("ctrl-1", ctrlPub, nil))
+	_, sess := w.connect("10.0.0.2:5000")
+	remote := "10.0.0.2:5000"
+	type exch struct {
+		sk, pk [32]byte
+		accEph []byte
+		ok     bool
+	}
+	start := func() exch {
+		var e exch
+		e.sk = curve25519.GeneratePrivateKey()
+		e.pk = curve25519.PublicKey(e.sk)
+		rec, _ := eePost(w.verify, "/pair-verify", remote, eeTLV(pair.TagSequence, byte(1), pair.TagPublicKey, e.pk[:]))
+		if t := rec.tlv(); t != nil && rec.status == 200 && t.GetByte(pair.TagSequence) == 2 && t.GetByte(pair.TagErrCode) == 0 {
+			e.accEph = t.GetBytes(pair.TagPublicKey)
+			e.ok = len(e.accEph) == 32
+		}
+		return e
+	}
+	e1 := start()
+	verif.Assert(e1.ok, "first-start-accepted")
+	if !e1.ok {
+		return
+	}
+	second := verif.Choice("second-start", 2) == 1
+	var e2 exch
+	if second {
+		e2 = start()
+	}
+	current, useFirst := e1, verif.Choice("finish-over", 2) == 0
+	if second && e2.ok {
+		current = e2
+	}
+	e := e1
+	if !useFirst {
+		if !second || !e2.ok {
+			verif.Reach("end")
+			return
+		}
+		e = e2
+	}
+	verif.Fact("second-start", map[bool]string{false: "no", true: "yes"}[second])
+	verif.Fact("second-start-accepted", map[bool]string{false: "no", true: "yes"}[second && e2.ok])
+	verif.Fact("finish-over", map[bool]string{true: "first start", false: "second start"}[useFirst])
+	var other [32]byte
+	copy(other[:], e.accEph)
+	shared := curve25519.SharedSecret(e.sk, other)
+	key, _ := hkdf.Sha512(shared[:], []byte("Pair-Verify-Encrypt-Salt"), []byte("Pair-Verify-Encrypt-Info"))
+	sig := ed25519.Sign(ctrlPriv, append(append(append([]byte{}, e.pk[:]...), []byte("ctrl-1")...), e.accEph...))
+	ct, mac, _ := chacha20poly1305.EncryptAndSeal(key[:], []byte("PV-Msg03"), eeTLV(pair.TagUsername, "ctrl-1", pair.TagSignature, sig), nil)
+	eePost(w.verify, "/pair-verify", remote, eeTLV(pair.TagSequence, byte(3), pair.TagEncryptedData, append(ct, mac[:]...)))
+	verified := sess.Decrypter() != nil
+	if verified {
+		verif.Assert(e.pk == current.pk, "verified-only-by-signature-over-the-last-accepted-start")
+	}
+	if !second {
+		verif.Assert(verified, "honest-single-exchange-verifies")
+	}
+	verif.Reach("end")
+}
